@@ -7,6 +7,8 @@
    the construction `Duration(seconds=<float>, years=, months=)`, Python's binary-operator protocol (NotImplemented -> reflected
    method -> TypeError; a right operand whose class is a subclass of the left one is asked first) and the operators a Duration
    INHERITS from timedelta (abs, +x, the reflected - // / % divmod, comparisons, hash).  No proofs here.
+   Last part: a PROCESS (run_history: several operator calls one after the other, results handed on as operands) and the divisor
+   conversion divisor_us with its memoised counter-model.
    Tied to /repo by the C10 correspondence run (both backends). *)
 From Coq Require Import ZArith List Bool.
 From Coq Require Import Floats.SpecFloat.
@@ -286,3 +288,95 @@ Definition unop (m : Z) (v : value) : result opres :=
 Definition dur_obs (d : dur) : list Z :=
   let '(nd, ns, nu) := td_norm (d_N d) in
   [nd; ns; nu] ++ sf_code (d_total d) ++ [d_years d; d_months d; d_weeks d; d_days d; d_rdays d; d_seconds d; d_micro d].
+
+(* ------------------------------------------------------------------ a process: a history of operator calls *)
+(* duration.py / interval.py keep NO state between two operator calls (no module-level cache, no configuration, operands are never
+   written to): a process that evaluates several calls one after the other is the straight-line program below.  The only thing a
+   later call can see of an earlier one is the OBJECT it returned (`ORef i`: the result of step i, handed on as an operand).
+   The correspondence runs whole histories in one interpreter (the history streams), so a hidden dependence on what ran before
+   - a memo keyed by ==/hash, a value half-set by a call that raised, an accessor that rewrites a field - shows up as a difference. *)
+Inductive operand :=
+| OLit (v : result value)      (* an operand constructed for this call (the construction itself may raise) *)
+| ORef (i : Z).                (* the object returned by step i of the same history *)
+
+Inductive hstep :=
+| HBin (m : Z) (l r : operand)
+| HUn (m : Z) (v : operand).
+
+(* what a returned object is when used as an operand: a Duration stays the very record (all private fields), numbers and plain
+   timedeltas their value; tuples, bools, hashes and raised calls cannot be referred to *)
+Definition value_of_outcome (r : result opres) : option value :=
+  match r with
+  | Ok (RDur d) => Some (VDur d) | Ok (RInt z) => Some (VInt z) | Ok (RFloat x) => Some (VFloat x) | Ok (RTd n) => Some (VTd n)
+  | _ => None
+  end.
+
+Definition fetch (env : list (result opres)) (o : operand) : result value :=
+  match o with
+  | OLit v => v
+  | ORef i =>
+      if i <? 0 then Raise E_Exception else
+      match nth_error env (Z.to_nat i) with
+      | Some r => match value_of_outcome r with Some v => Ok v | None => Raise E_Exception end
+      | None => Raise E_Exception
+      end
+  end.
+
+Definition is_pendulum (v : value) : bool := match v with VDur _ | VIvl _ => true | _ => false end.
+
+(* 19: `touch` — every public accessor of the object is read (years .. microseconds, invert, total_*(), in_*(), repr, hash, bool) and the
+   SAME object is handed on: reading never changes it *)
+Definition M_TOUCH : Z := 19.
+Definition hist_unop (m : Z) (v : value) : result opres :=
+  match v with
+  | VDur d => if m =? M_TOUCH then Ok (RDur d) else unop m v
+  | _ => unop m v
+  end.
+
+(* operands are evaluated left to right; a call without a pendulum operand is not an operation of this library (RNotImpl marks it) *)
+Definition eval_step (env : list (result opres)) (s : hstep) : result opres :=
+  match s with
+  | HBin m l r => bind (fetch env l) (fun a => bind (fetch env r) (fun b =>
+                  if is_pendulum a || is_pendulum b then binop m a b else Ok RNotImpl))
+  | HUn m v => bind (fetch env v) (fun a => if is_pendulum a then hist_unop m a else Ok RNotImpl)
+  end.
+
+(* the state of the process is exactly the list of objects returned so far *)
+Fixpoint run_from (env : list (result opres)) (h : list hstep) : list (result opres) :=
+  match h with
+  | [] => []
+  | s :: t => let r := eval_step env s in r :: run_from (env ++ [r]) t
+  end.
+
+Definition run_history (h : list hstep) : list (result opres) := run_from [] h.
+
+(* ------------------------------------------------------------------ the divisor of // / % divmod *)
+(* `_timedelta_to_microseconds(other)` on a model value (the translated function, one translation per class of `other`) *)
+Definition divisor_us (o : value) : option Z :=
+  match o with
+  | VDur d | VIvl d => Some (py_timedelta_to_microseconds_duration d)
+  | VTd n => Some (py_timedelta_to_microseconds_plain (plain_td n))
+  | _ => None
+  end.
+
+(* COUNTER-MODEL (not the code): the same conversion behind a memo whose key is what timedelta.__eq__ / __hash__ see of the operand,
+   its native length (an Interval compares and hashes by its end points: never looked up).  Proofs/C10History.v shows that this memo is
+   transparent exactly while no Duration with years / months ever reaches it, which a process cannot promise: the reason why the
+   correspondence and the oracle run histories and not only single calls. *)
+Definition td_key (o : value) : option Z := match o with VDur d => Some (d_N d) | VTd n => Some n | _ => None end.
+
+Fixpoint assoc (k : Z) (c : list (Z * Z)) : option Z :=
+  match c with [] => None | (k', u) :: t => if k =? k' then Some u else assoc k t end.
+
+Fixpoint memo_divisors (c : list (Z * Z)) (os : list value) : list (option Z) :=
+  match os with
+  | [] => []
+  | o :: t =>
+      match td_key o, divisor_us o with
+      | Some k, Some u => match assoc k c with
+                          | Some u' => Some u' :: memo_divisors c t
+                          | None => Some u :: memo_divisors ((k, u) :: c) t
+                          end
+      | _, r => r :: memo_divisors c t
+      end
+  end.
